@@ -543,7 +543,7 @@ class FieldCodeGenerator:
             else:
                 statement.add(read_basic_type)
         elif isinstance(type_, BlobType):
-            statement.add("reader.get_bytes(reader.remaining)")
+            statement.add("bytes(reader.get_bytes(reader.remaining))")
         elif isinstance(type_, StructType):
             statement.add(f"{type_.name}.deserialize(reader)").add_import_by_type(type_)
         else:
